@@ -458,8 +458,7 @@ def shrink_desc(desc):
     for k in range(len(d["edges"]) - 1, -1, -1):
         e = copy.deepcopy(d)
         del e["edges"][k]
-        if all(not order_inversions(desc_rows(e)) or True for _ in (0,)):
-            yield e
+        yield e
     if any(r[-1] for t in ("nodes", "edges", "sites", "mutations", "migrations") for r in d[t]):
         e = copy.deepcopy(d)
         for t in ("nodes", "edges", "sites", "mutations", "migrations", "individuals", "populations"):
